@@ -105,7 +105,15 @@ fn subjects() -> Vec<Value> {
 fn regex_part(run: &Run, max_size: usize) -> Acc {
     let mut pats = patterns(max_size);
     pats.extend(invalid_patterns());
+    pats.extend(["(a)|(b)", "(ab)|(ba)", "(a)(b)", "(a)|b", "a|(b)", "(a|b)|(ab)", "(a)|(b)|(ab)", "(a)?|(b)(a)", "(a)*|(b)+"].iter().map(|s| s.to_string()));
     pats.extend(["a{2}", "a{1,2}b", "(ab){2,}", "[a-b]+", "[^ab]", "a\\|b", "\\(a\\)", "(a|b)*abb", "a.*b", ".*", ".+", "(a*)*", "(a|)+", "\\\\", "a\\\\.b", "[.]", "[\\.]", "'a'", "\"a\"", "a'", "'", "\"", "'a|b'", "a\"b"].iter().map(|s| s.to_string()));
+    // for every pattern with a backslash also the text its string-literal spelling has between the quotes (every
+    // backslash doubled), used as a pattern from the document: the same text then reaches the evaluator once as a
+    // literal and once as a document value, with different meanings
+    let doubled: Vec<String> = pats.iter().filter(|p| p.contains('\\')).map(|p| p.replace('\\', "\\\\")).collect();
+    pats.extend(doubled);
+    let mut seen = BTreeSet::new();
+    pats.retain(|p| seen.insert(p.clone()));
     let subs = subjects();
     let subs_wrapped: Vec<Value> = subs.iter().map(|s| json!({ "s": s })).collect();
     pats.par_iter()
